@@ -164,7 +164,9 @@ impl Drop for Sess {
 
 const CLOCK_VALUES: &[&str] = &["0", "-5", "-1000000000000000000", "1", "99", "100", "101", "150", "220", "400", "800", "3000",
     // the mover's own clock hopelessly negative: the smallest i128, its neighbours, and an integer below any machine range
-    "-170141183460469231731687303715884105728", "-170141183460469231731687303715884105700", "-999999999999999999999999999999999999999999999"];
+    "-170141183460469231731687303715884105728", "-170141183460469231731687303715884105700", "-999999999999999999999999999999999999999999999",
+    // between -2^128 and -2^127: beyond i128 but within u128 magnitude
+    "-170141183460469231731687303715884105729", "-200000000000000000000000000000000000000", "-340282366920938463463374607431768211455"];
 const HUGE: &[&str] = &["100000000", "9007199254740993", "1000000000000000000000000000000", "-1000000000000000000", "0",
     // integers that do not fit any machine integer are still clock values
     "1000000000000000000000000000000000000000000000", "-1000000000000000000000000000000000000000000000", "340282366920938463463374607431768211456"];
@@ -190,8 +192,19 @@ pub fn go_args(rng: &mut Rng, stm: Color, max_plan: u128) -> String {
         if rng.chance(1, 2) {
             fields.push(("movestogo".into(), rng.pick(&["1", "2", "40", "40", "4294967295", "4294967296", "100000000000000000000", "0", "-3"]).to_string()));
         }
+        // the acceptable slice is judged on the numbers WRITTEN (an upper bound from the statement:
+        // 80% of (clock - 100) / moves to go, at most the clock when only the increment is usable,
+        // nothing otherwise), not on what the code under test makes of them
+        let num = |key: &str| -> Option<f64> { fields.iter().find(|(k, _)| k == key).and_then(|(_, v)| v.parse::<f64>().ok()) };
+        let clock = num(mine_t).unwrap_or(0.0);
+        let inc = num(mine_i).unwrap_or(0.0);
+        let mtg = num("movestogo").filter(|m| *m >= 1.0).unwrap_or(30.0);
+        let written_bound = if clock > 100.0 { 0.8 * (clock - 100.0) / mtg + 0.5 } else if inc > 0.0 { clock.max(0.0) } else { 0.0 };
+        if written_bound > max_plan as f64 {
+            continue;
+        }
         rng.shuffle(&mut fields);
-        for (k, v) in fields {
+        for (k, v) in fields.clone() {
             if rng.chance(1, 8) {
                 parts.push(rng.pick(&["infinite", "ponder", "foo"]).to_string());
             }
@@ -203,16 +216,8 @@ pub fn go_args(rng: &mut Rng, stm: Color, max_plan: u128) -> String {
         // "movestogo 0" (or a negative count) tells the engine nothing usable; the slice that is
         // acceptable for the workload is judged on the line without it
         let line = line.replace(" movestogo 0", "").replace(" movestogo -3", "");
-        match plan_for(&line, stm) {
-            Ok(plan) => {
-                if plan <= max_plan {
-                    return args;
-                }
-            }
-            // the repository's own parser / policy panics on this line: the plan is unknown, the
-            // line is still a go with integer clock values and is sent as it is
-            Err(_) => return args,
-        }
+        let _ = line;
+        return args;
     }
     String::new()
 }
